@@ -72,6 +72,12 @@ def mc_plan(tier):
                          dict(base, Prefix=PREFIXES["oneseg"], MaxLen=3 + deep, RewindSet=rew, TruncSet=[0, 64, 160],
                               WithClear=True, Backend="vec", Emit=True, FixedRewind=fixed_rewind()),
                          "emit_ctl", layout))
+            # clear() of an arena whose cursor is (back) at the data offset but which is not pristine: discarded bytes, a free
+            # list, stale bytes above the cursor (rewind to the start, everything released from the top, increase_discarded)
+            plan.append(("ctl0_%s_%s" % (layout, kind),
+                         dict(base, ByteSizes=[16, 40], Prefix=[], MaxLen=4 + deep, RewindSet=[("start", 0)], IncSet=[3],
+                              WithClear=True, Backend="vec", Emit=True, HistView=True, FixedRewind=fixed_rewind()),
+                         "emit_ctl", layout))
     # close + reopen as a call: every reachable (cursor, free list, discarded, minimum segment size) is closed and reopened
     for kind in ["opt", "pes"]:
         for pname in ["empty", "oneseg"]:
@@ -84,8 +90,8 @@ def mc_plan(tier):
     for layout, base in [("plain", dict(Unify=False, Reserved=0, Cap=96)), ("unify", dict(Unify=True, Reserved=0, Cap=127))]:
         for kind in ["opt", "pes"]:
             plan.append(("fit_%s_%s" % (layout, kind),
-                         dict(base, Kind=kind, ByteSizes=[24], TypeSet=[(8, 8), (16, 16)], AlignedSet=[((8, 8), 16)], OwnedToo=True,
-                              MinSegSet=[], IncSet=[], Prefix=[AB(5)], MaxLen=5 + deep, MaxLive=4, WithFit=True, HistView=True, Emit=True),
+                         dict(base, Kind=kind, ByteSizes=[8, 24], TypeSet=[(8, 8), (16, 16)], AlignedSet=[((8, 8), 16)], OwnedToo=True,
+                              MinSegSet=[0], IncSet=[], Prefix=[AB(5)], MaxLen=5 + deep, MaxLive=4, WithFit=True, HistView=True, Emit=True),
                          "emit_fit", layout))
     # a second arena value alive across truncate (both layouts, Vec and file): made, asked, allocated through, dropped
     for layout, base in [("plain", dict(Unify=False, Reserved=0, Cap=96)), ("unify", dict(Unify=True, Reserved=0, Cap=127))]:
